@@ -47,6 +47,14 @@ def unpack(field, b):
     return raw * RI % m, raw < m
 
 
+def residue_twin(field, vals):
+    """values whose INTERNAL (Montgomery) residues are the given alphabet values: the carry / borrow / compare-with-modulus decision
+    points of add, subtract, double, negate and of the final conditional subtraction lie in the residue domain, not in the value domain"""
+    m, bits = FIELDS[field]
+    RI = ref.MONT_Q_INV if field == "fq" else ref.MONT_R_INV
+    return [v * RI % m for v in vals if v < m]
+
+
 def operands(field, seed, tier):
     m, bits = FIELDS[field]
     n = bits // 64
@@ -397,7 +405,12 @@ def run_shard(ctx, shard):
     m, bits = FIELDS[field]
     if sub == "binop":
         A = operands(field, seed, tier)
-        pairs = alpha.dedup(list(itertools.product(A, A)) + alpha.targeted_pairs(m, bits, A))
+        Ar = residue_twin(field, A)
+        tr = alpha.targeted_pairs(m, bits, A)
+        RI = ref.MONT_Q_INV if field == "fq" else ref.MONT_R_INV
+        # value-domain pairs, and the same alphabets placed in the residue domain (both operands): sums/differences of residues that
+        # land exactly on / next to the modulus and the word-size power
+        pairs = alpha.dedup(list(itertools.product(A, A)) + tr + list(itertools.product(Ar, Ar)) + [(a * RI % m, b * RI % m) for a, b in tr])
         pairs = pairs[shard["part"]::shard["parts"]]
         op = shard["op"]
         for a, b in pairs:
@@ -412,10 +425,13 @@ def run_shard(ctx, shard):
                 return
     elif sub == "unop":
         A = unary_operands(field, seed, tier)
+        A = alpha.dedup(A + residue_twin(field, A))
         for op in ("multiply2", "negate", "square", "inverse", "set", "get", "into_montgomery_form", "legendre", "sqrt_of_square", "predicates"):
             B = A
             if op in ("legendre", "sqrt_of_square", "inverse") and len(A) > 400:
                 B = A[:: len(A) // 400]       # each costs an exponentiation; keep boundary classes, thin the product
+            if op == "multiply2":
+                B = alpha.dedup(A + residue_twin(field, [v for v in alpha.half_limb_product(m, bits // 64) if v < m]))
             for a in B:
                 emit(ctx, {"sub": "unop", "cfg": cfg, "field": field, "op": op, "a": hx(a)}, not trivial(a))
             if ctx.out_of_time():
